@@ -1148,7 +1148,7 @@ class NestedFrame(pd.DataFrame):
             if not self._is_known_column(components):
                 break
             layer = "base" if len(components) < 2 else components[0]
-            col = components[-1]
+            col = components[0] if len(components) < 2 else ".".join(components[1:])
             requested_columns.append((layer, col))
 
         # We require the first *args to be the columns to apply the function to
